@@ -66,12 +66,15 @@ func genIface(rng *vlib.Rand) IfaceSpec {
 
 func genBackend(rng *vlib.Rand, sc *Scenario) {
 	switch x := rng.Intn(100); {
-	case x < 40:
+	case x < 35:
 		sc.Backend, sc.Shadow = "hashmap", rng.Bool()
-	case x < 75:
+	case x < 65:
 		sc.Backend, sc.Shadow = "bbolt", rng.Bool()
-	default:
+	case x < 85:
 		sc.Backend = "injected"
+		sc.InjectLate = rng.Bool()
+	default:
+		sc.Backend = "injmap"
 	}
 }
 
@@ -92,14 +95,17 @@ func pickKind(rng *vlib.Rand, kinds []string, weights []int) string {
 
 func genWriteOp(rng *vlib.Rand, backend string, dirs []string, nkeys int) OpSpec {
 	var kind string
-	if backend == "injected" {
-		kind = pickKind(rng, []string{"push", "put", "secret", "insert", "del", "crown", "expiry"}, []int{50, 25, 5, 8, 4, 4, 4})
-	} else {
-		kind = pickKind(rng, []string{"put", "putnew", "del", "secret", "crown", "insert", "expiry"}, []int{50, 10, 12, 6, 5, 9, 8})
+	switch backend {
+	case "injected":
+		kind = pickKind(rng, []string{"push", "put", "secret", "insert", "del", "crown", "expiry", "putdel"}, []int{50, 25, 5, 8, 3, 4, 4, 1})
+	case "injmap":
+		kind = pickKind(rng, []string{"push", "put", "putnew", "del", "putdel", "secret", "crown", "insert", "expiry"}, []int{25, 30, 5, 12, 8, 5, 4, 6, 5})
+	default:
+		kind = pickKind(rng, []string{"put", "putnew", "del", "putdel", "secret", "crown", "insert", "expiry"}, []int{46, 8, 12, 8, 6, 5, 8, 7})
 	}
 	op := OpSpec{Kind: kind, Dir: vlib.Pick(rng, dirs...), N: rng.Intn(nkeys)}
 	switch kind {
-	case "put", "putnew", "push":
+	case "put", "putnew", "push", "putdel":
 		op.Score, op.Tag = genScore(rng), vlib.Pick(rng, tags...)
 		op.PreSecret = rng.Chance(8, 100)
 		op.PreCrown = rng.Chance(8, 100)
@@ -121,7 +127,7 @@ func genSubs(rng *vlib.Rand, id int) Scenario {
 	total := 0
 	for w := 0; w < nw; w++ {
 		ws := WriterSpec{ID: w, Iface: genIface(rng)}
-		if sc.Backend == "injected" {
+		if sc.Backend == "injected" || sc.Backend == "injmap" {
 			// PushUpdate bypasses the interface: a cache would serve records the
 			// provider has replaced since (documented cache caveat), and the model's
 			// "one interface per key" assumption would not hold
@@ -183,6 +189,7 @@ func genPair(rng *vlib.Rand, id int) Scenario {
 	p := &PlanSpec{Template: vlib.Pick(rng, "A", "B", "C", "D", "E"), Warm: rng.Range(1, 4), During: rng.Range(0, 3), After: rng.Range(1, 3),
 		OtherSubs: rng.Range(0, 2), TargetPriv: 3, MatchOther: rng.Bool()}
 	if sc.Backend == "injected" {
+		// (a delete fails on the runtime registry before it reaches the yield point)
 		p.ParkedOp = vlib.Pick(rng, "put", "put", "secret")
 	} else {
 		p.ParkedOp = vlib.Pick(rng, "put", "put", "put", "del", "secret", "insert")
@@ -237,7 +244,7 @@ func genShared(rng *vlib.Rand, id int) Scenario {
 	sc.Plan = p
 	w0 := WriterSpec{ID: 0, Iface: allPriv()}
 	kind := "put"
-	if sc.Backend == "injected" && rng.Bool() {
+	if (sc.Backend == "injected" || sc.Backend == "injmap") && rng.Bool() {
 		kind = "push"
 	}
 	for i := 0; i < p.Warm+p.During+p.After; i++ {
@@ -266,21 +273,52 @@ func genShared(rng *vlib.Rand, id int) Scenario {
 // genHooksDirected: records are stored first, then a hook that vetoes in PrePut is
 // registered, then the stored records are deleted / modified / re-put: the
 // load-modify-put operations meet a veto by construction.
+// genModIface: options of the interface the load-modify-put operations of a hooks-class
+// worker use (always local+internal, no cache).
+func genModIface(rng *vlib.Rand, pct int) IfaceSpec {
+	sp := allPriv()
+	if !rng.Chance(pct, 100) {
+		return sp
+	}
+	for n := rng.Range(1, 2); n > 0; n-- {
+		switch rng.Intn(4) {
+		case 0:
+			sp.Secret = true
+		case 1:
+			sp.Crown = true
+		case 2:
+			sp.AbsExp = 2000000
+		default:
+			sp.RelExp = 3000000
+		}
+	}
+	return sp
+}
+
 func genHooksDirected(rng *vlib.Rand, id int) Scenario {
 	sc := Scenario{ID: id, Class: "hooks", Delay: Delay{Mode: "idle"}}
-	if rng.Chance(60, 100) {
+	switch x := rng.Intn(100); {
+	case x < 55:
 		sc.Backend, sc.Shadow = "hashmap", rng.Bool()
-	} else {
+	case x < 85:
+		// runtime registry: like hashmap its provider hands out the stored object
+		sc.Backend, sc.InjectLate = "injected", rng.Bool()
+	default:
 		sc.Backend = "bbolt"
 	}
-	ws := WriterSpec{ID: 0, Iface: allPriv()}
+	ws := WriterSpec{ID: 0, Iface: genModIface(rng, 85)}
 	const nk = 6
 	for n := 0; n < nk; n++ {
 		ws.Ops = append(ws.Ops, OpSpec{Kind: "put", Dir: "a/", N: n, Score: genScore(rng), Tag: vlib.Pick(rng, tags...)})
 	}
 	m := rng.Range(20, 40)
 	for i := 0; i < m; i++ {
-		op := OpSpec{Kind: pickKind(rng, []string{"del", "secret", "crown", "insert", "get", "put"}, []int{25, 15, 15, 20, 10, 15}), Dir: "a/", N: rng.Intn(nk)}
+		op := OpSpec{Kind: pickKind(rng, []string{"del", "secret", "crown", "expiry", "relexpiry", "insert", "get", "put"}, []int{22, 12, 12, 10, 10, 14, 8, 12}), Dir: "a/", N: rng.Intn(nk)}
+		if op.Kind == "insert" && sc.Backend == "injected" {
+			// a vetoed InsertValue changes a live stored object: the known finding
+			// C14-insertvalue-veto-hashmap, same cause; not repeated per backend
+			op.Kind = "secret"
+		}
 		if op.Kind == "put" {
 			op.Score, op.Tag = genScore(rng), vlib.Pick(rng, tags...)
 		}
@@ -314,13 +352,13 @@ func genHooks(rng *vlib.Rand, id int) Scenario {
 	total := 0
 	dirs := []string{"a/", "a/b/", "c/"}
 	for w := 0; w < nw; w++ {
-		ws := WriterSpec{ID: w, Iface: allPriv()}
+		ws := WriterSpec{ID: w, Iface: genModIface(rng, 30)}
 		n := rng.Range(30, 80)
 		if sc.Backend == "bbolt" {
 			n = rng.Range(20, 40)
 		}
 		for i := 0; i < n; i++ {
-			op := OpSpec{Kind: pickKind(rng, []string{"get", "put", "del", "secret", "crown", "insert"}, []int{36, 36, 14, 4, 3, 7}), Dir: vlib.Pick(rng, dirs...), N: rng.Intn(8)}
+			op := OpSpec{Kind: pickKind(rng, []string{"get", "put", "del", "secret", "crown", "insert", "expiry", "relexpiry"}, []int{35, 35, 13, 4, 3, 6, 2, 2}), Dir: vlib.Pick(rng, dirs...), N: rng.Intn(8)}
 			if op.Kind == "put" {
 				op.Score, op.Tag = genScore(rng), vlib.Pick(rng, tags...)
 			}
